@@ -6,6 +6,10 @@ ALL = ["C%02d" % i for i in range(1, 21)]
 
 # id -> (technique, level text, level note, design ref)
 CLAIMED = {
+ "C09": ("proptest programs x enumerated resolution schedules (cfg hook) x module-order permutations x repeated and fresh-process builds; byte-equality oracle",
+         "Generated-input search over programs and schedules: every generated program is rebuilt under hash order (repeated), sorted/reverse/seeded set-dependent schedules, every priority permutation of its user items when it has <= 5 (6 in thorough) of them, every permutation of add_module order, and in fresh processes through pyxis::build on disk; all runs must agree on Ok/Err and on every output byte. Exploration; exhaustive over priority schedules only for the small programs stated.",
+         "Schedules are installed through the cfg(pyxis_verif) hook in TypeRegistry::unresolved(); iteration order of the modules map (which file is written first) is sampled by fresh processes only.",
+         "DESIGN.md §4 C09"),
  "C03": ("proptest + exhaustive small-scope grid against a reference realisability predicate (both directions)",
          "Generated-input search with a two-sided oracle: SemanticState::build returns Ok iff the reference model (written from the property statement) says the single-type description is realisable, and on Ok the resolved size/alignment equal the model's. An exhaustive grid (<=2 fields x address x size x align x packed x vftable x width) plus random descriptions with up to 8 fields. Exploration; exhaustive only inside the stated grid.",
          "Trusts the reference model in harness/src/refmodel.rs (default-alignment rule pinned from the code, see DESIGN.md §2.2).",
